@@ -10,6 +10,14 @@ use super::{
     Interpreter, TxScript,
 };
 
+/// Fails unless the stack holds at least `count` items.
+fn require_items(stack: &[Vec<u8>], count: usize) -> Result<(), InterpreterError> {
+    match stack.len() >= count {
+        true => Ok(()),
+        false => Err(InterpreterError::InvalidStackOperation("not enough items on the stack")),
+    }
+}
+
 /// Script Matching functions
 impl Interpreter {
     fn verify(boolean: bool) -> Result<(), InterpreterError> {
@@ -144,34 +152,45 @@ impl Interpreter {
                 state.stack.push(top_data);
             }
             OpCodes::OP_NIP => {
+                require_items(&state.stack, 2)?;
                 state.stack.remove(state.stack.len() - 2);
             }
             OpCodes::OP_OVER => {
+                require_items(&state.stack, 2)?;
                 let index = state.stack.len() - 2;
                 let second_last = state.stack.get(index).cloned().ok_or(InterpreterError::NumberOutOfRange)?;
                 state.stack.push_bytes(second_last);
             }
             OpCodes::OP_PICK => {
                 let index = state.stack.pop_number()?;
+                if index < 0 || index as usize >= state.stack.len() {
+                    return Err(InterpreterError::InvalidStackOperation("OP_PICK index is out of range"));
+                }
                 let selected_item = state.stack.get((state.stack.len() - 1) - index as usize).cloned().ok_or(InterpreterError::NumberOutOfRange)?;
                 state.stack.push_bytes(selected_item);
             }
             OpCodes::OP_ROLL => {
                 let index = state.stack.pop_number()?;
+                if index < 0 || index as usize >= state.stack.len() {
+                    return Err(InterpreterError::InvalidStackOperation("OP_ROLL index is out of range"));
+                }
                 let selected_item = state.stack.remove((state.stack.len() - 1) - index as usize);
                 state.stack.push_bytes(selected_item);
             }
             OpCodes::OP_ROT => {
+                require_items(&state.stack, 3)?;
                 let len = state.stack.len();
                 let third = state.stack.remove(len - 3);
 
                 state.stack.push_bytes(third);
             }
             OpCodes::OP_SWAP => {
+                require_items(&state.stack, 2)?;
                 let len = state.stack.len();
                 state.stack.swap(len - 1, len - 2);
             }
             OpCodes::OP_TUCK => {
+                require_items(&state.stack, 2)?;
                 let selected_item = state.stack.last().cloned().ok_or(InterpreterError::NumberOutOfRange)?;
                 state.stack.insert(state.stack.len() - 2, selected_item);
             }
@@ -180,6 +199,7 @@ impl Interpreter {
                 state.stack.pop_bytes()?;
             }
             OpCodes::OP_2DUP => {
+                require_items(&state.stack, 2)?;
                 let first = state.stack.last().cloned().ok_or(InterpreterError::NumberOutOfRange)?;
                 let second = state.stack.get(state.stack.len() - 2).cloned().ok_or(InterpreterError::NumberOutOfRange)?;
 
@@ -187,6 +207,7 @@ impl Interpreter {
                 state.stack.push_bytes(first);
             }
             OpCodes::OP_3DUP => {
+                require_items(&state.stack, 3)?;
                 let first = state.stack.last().cloned().ok_or(InterpreterError::NumberOutOfRange)?;
                 let second = state.stack.get(state.stack.len() - 2).cloned().ok_or(InterpreterError::NumberOutOfRange)?;
                 let third = state.stack.get(state.stack.len() - 3).cloned().ok_or(InterpreterError::NumberOutOfRange)?;
@@ -196,6 +217,7 @@ impl Interpreter {
                 state.stack.push_bytes(first);
             }
             OpCodes::OP_2OVER => {
+                require_items(&state.stack, 4)?;
                 let len = state.stack.len();
                 let third = state.stack[len - 3].clone();
                 let fourth = state.stack[len - 4].clone();
@@ -203,6 +225,7 @@ impl Interpreter {
                 state.stack.push_bytes(third);
             }
             OpCodes::OP_2ROT => {
+                require_items(&state.stack, 6)?;
                 let index = state.stack.len() - 6;
                 let sixth = state.stack.remove(index);
                 let fifth = state.stack.remove(index);
@@ -243,7 +266,7 @@ impl Interpreter {
             }
 
             OpCodes::OP_SIZE => {
-                let len = state.stack.last().unwrap().len();
+                let len = state.stack.last().ok_or(InterpreterError::EmptyStack)?.len();
                 state.stack.push_number(len as i64)?;
             }
             OpCodes::OP_INVERT => {
